@@ -50,6 +50,8 @@ def shim():
     sh.shim_get_log.argtypes = [ctypes.c_long]
     sh.shim_set_real.argtypes = [ctypes.c_int, ctypes.c_void_p]
     sh.shim_set_mutex.argtypes = [ctypes.c_void_p]
+    sh.shim_get_badclose.restype = ctypes.c_long
+    sh.shim_set_watch_close.argtypes = [ctypes.c_int]
     return sh
 
 
@@ -122,6 +124,7 @@ class Server:
             except Exception:
                 port += 1000
         sh.shim_set_mutex(ctypes.addressof(sim._server_data.contents) + MUTEX_OFFSET)
+        sh.shim_set_watch_close(1)
         sh.shim_set_arm(n)
         done = [False]
         err = [None]
@@ -205,6 +208,10 @@ class Server:
             out["V"].append(("hang", "integrate() did not return"))
             return out
         sim.stop_server()
+        nbad = sh.shim_get_badclose()
+        sh.shim_set_watch_close(0)
+        if nbad:
+            out["V"].append(("double-close", "%d close() call(s) on a descriptor that was not open any more while the server handled the request: the server closes its connection twice (fclose(stream), then close(fd)); if another thread opens a file in between, the second close takes that file away from it" % nbad))
         if err[0]:
             out["V"].append(("integrate-raised", "integrate() raised %s" % err[0]))
         F1 = particles_bits(sim)
@@ -311,6 +318,94 @@ class Server:
             http(b"GET /keyboard/32 HTTP/1.1\r\n\r\n")
             # a request line the server cannot parse must not be taken for a repetition of the previous request (the pause key)
             http(b"GET\r\n\r\n")
+
+
+class HeartbeatWindow:
+    """a user heartbeat that changes the simulation for a moment (and puts it back) while a client asks for a snapshot: every
+    heartbeat of integrate(), including the one before the first step, has to run under the server's lock"""
+    def __init__(self, rebound):
+        self.rebound = rebound
+
+    def __call__(self, task):
+        ci, which, port = task
+        cfg = CONFIGS[ci]
+        rb.quiet()
+        rebound = self.rebound
+        if not os.path.exists("rebound.html"):
+            open("rebound.html", "a").close()
+        ref, tmax = make(rebound, cfg)
+        ref.integrate(tmax, exact_finish_time=eft_of(cfg))
+        F0 = particles_bits(ref)
+        sim, tmax = make(rebound, cfg)
+        for attempt in range(20):
+            try:
+                sim.start_server(port)
+                break
+            except Exception:
+                port += 1000
+        calls = [0]
+        resp = [None]
+        th = [None]
+
+        def req():
+            try:
+                s = socket.create_connection(("127.0.0.1", port), timeout=30)
+                s.sendall(b"GET /simulation HTTP/1.1\r\n\r\n")
+                buf = b""
+                while True:
+                    d = s.recv(65536)
+                    if not d:
+                        break
+                    buf += d
+                s.close()
+                resp[0] = buf
+            except Exception as e:     # noqa
+                resp[0] = b"EXC " + repr(e).encode()
+
+        def hb(simp):
+            k = calls[0]
+            calls[0] += 1
+            if k != which:
+                return
+            s_ = simp.contents
+            x0 = s_._particles[1].x
+            s_._particles[1].x = 12345.0
+            th[0] = threading.Thread(target=req)
+            th[0].start()
+            t0 = time.time()
+            while resp[0] is None and time.time() - t0 < 0.3:
+                time.sleep(0.001)
+            s_._particles[1].x = x0
+        sim.heartbeat = hb
+        V = []
+        try:
+            sim.integrate(tmax, exact_finish_time=eft_of(cfg))
+        except BaseException as e:     # noqa
+            V.append(("integrate-raised", "integrate() raised %r" % (e,)))
+        if th[0] is not None:
+            th[0].join(35)
+        sim.stop_server()
+        lab = "heartbeat call %d" % which
+        if calls[0] <= which:
+            return {"V": V, "opened": False}
+        if particles_bits(sim) != F0:
+            V.append(("trajectory-altered", "the final state differs from the run without a server"))
+        body = resp[0] or b""
+        k = body.find(b"REBOUND Binary File")
+        if not body.startswith(b"HTTP/1.1 200") or k < 0:
+            V.append(("no-snapshot", "the response to GET /simulation is not a snapshot: %r" % body[:80]))
+            return {"V": V, "opened": True}
+        fn = "/var/tmp/c19h_%d_%d.bin" % (os.getpid(), port)
+        open(fn, "wb").write(body[k:])
+        try:
+            s2 = rebound.Simulation(fn)
+            if s2.particles[1].x == 12345.0:
+                V.append(("inside-heartbeat", "the snapshot served during %s holds the state the heartbeat had put in place for a moment (x_1 = 12345): it was taken while the heartbeat ran" % lab))
+        except BaseException as e:     # noqa
+            V.append(("snapshot-unreadable", "the served snapshot cannot be loaded: %r" % (e,)))
+        finally:
+            os.remove(fn)
+        return {"V": V, "opened": True}
 
 
 # ------------------------------------------------------------------------------------------------ T threads
@@ -489,6 +584,24 @@ def run(ctx):
         for sig, what in o["V"]:
             kind = "snapshot" if req.startswith(b"GET /simulation") else ("pause" if req == b"PAUSE" else "bad-request")
             ctx.violation("server:%s:%s:%s:at-%s" % (kind, sig, cfg[0], o["served_at"]), "%s (integration thread at %s, served at %s): %s" % (lab, o["event"], o["served_at"], what), case)
+    # ---- S' heartbeats that touch the simulation
+    hwt = []
+    for ci in range(len(CONFIGS)):
+        for which in (0, 1, 2, 4):
+            hwt.append((ci, which, port))
+            port += 1
+    hwres = pool.run_tasks(HeartbeatWindow(rebound), hwt, timeout=300, chunk=1)
+    nhw = 0
+    for t, r in zip(hwt, hwres):
+        cfg = CONFIGS[t[0]]
+        case = {"cfg": [cfg[0], cfg[1], cfg[2]], "heartbeat": t[1]}
+        lab = "%s%s exact_finish_time=%d, heartbeat call %d changes a particle for a moment while a client asks for a snapshot" % (cfg[0], cfg[1], cfg[2], t[1])
+        if r[0] != "ok":
+            ctx.violation("heartbeat-window-%s:%s" % (r[0], cfg[0]), "%s: %s %s" % (lab, r[0], str(r[1])[-400:]), case)
+            continue
+        nhw += 1 if r[1]["opened"] else 0
+        for sig, what in r[1]["V"]:
+            ctx.violation("server:heartbeat:%s:%s:call-%s" % (sig, cfg[0], "0" if t[1] == 0 else "n"), "%s: %s" % (lab, what), case)
     # ---- T1
     ga = pool.run_tasks(GlobalsAudit(rebound, libdir), [0], timeout=600, chunk=1)[0]
     nglob = 0
@@ -583,7 +696,7 @@ def run(ctx):
         "evaluations": len(tasks) + len(dry) + nint + nthreadruns + 1,
         "distinct_nontrivial": len(tasks) + nint + len(served),
         "rule": "S: one controlled execution per (configuration, event index, request); requests: GET /simulation at every event, bad requests and the pause sequence (pause key at the event, snapshot while paused, single-step key, snapshot, resume) at every 3rd (thorough: every) event; T2: interleavings of two simulations; T3: workload runs in concurrent threads",
-        "whfast512_interleavings": n_w512, "schedules": len(tasks), "pause_sequences": npause[0], "pause_sequences_that_paused": npause[1], "pause_sequences_with_single_step": npause[2], "events_per_configuration": totals and sorted(set(totals.values())), "distinct_served_positions": len(served),
+        "whfast512_interleavings": n_w512, "schedules": len(tasks), "heartbeat_windows": nhw, "pause_sequences": npause[0], "pause_sequences_that_paused": npause[1], "pause_sequences_with_single_step": npause[2], "events_per_configuration": totals and sorted(set(totals.values())), "distinct_served_positions": len(served),
         "served_positions": sorted("%s->%s:%d" % (a, b, c) for (a, b), c in served.items())[:60],
         "writable_globals_in_library": nglob, "interleavings": nint, "thread_workload_runs": nthreadruns, "tsan_reports_total": races, "exhaustive": True, "samples": [str(tasks[0][:3])],
     }
@@ -595,6 +708,15 @@ def run(ctx):
 
 
 def replay(ctx, case):
+    if "heartbeat" in case:
+        rebound = ctx.use("rel")
+        sh = shim()
+        for pid_, nm in REALS:
+            sh.shim_set_real(pid_, ctypes.cast(getattr(rebound.clibrebound, nm), ctypes.c_void_p))
+        ci = [i for i, c in enumerate(CONFIGS) if [c[0], c[1], c[2]] == case["cfg"]][0]
+        out = HeartbeatWindow(rebound)((ci, case["heartbeat"], 10000 + (os.getpid() % 3) * 7000 + 60))
+        print(out)
+        return 1 if out["V"] else 0
     if "event" in case and "cfg" in case:
         # one server schedule: (configuration, event index, request)
         rebound = ctx.use("rel")
